@@ -67,9 +67,13 @@ def build(spec):
         a = spec.get("nattr", {}).get(n, {})
         if a:
             obj.set_node_attributes({n: a})  # through a mapping: an attribute may be named like a parameter
+    from .canon import fresh
+
     for pos, (i, m) in enumerate(spec["edges"]):
         attr = spec.get("eattr", {}).get(pos, {})
-        mem = (list(m[0]), list(m[1])) if spec["cls"] == "D" else list(m)
+        # every occurrence of a label is its own (equal) object, as when labels are read from a file or computed per edge:
+        # code that compares labels by identity works only on shared objects
+        mem = ([fresh(x) for x in m[0]], [fresh(x) for x in m[1]]) if spec["cls"] == "D" else [fresh(x) for x in m]
         before = set(obj.edges) if (attr and i is None) else None
         if spec["cls"] == "S":
             if i is None:
